@@ -3,10 +3,10 @@ package main
 // C18 — activation follows confirmed epochs; the registry is complete and correctly bound.
 
 import (
-	"regexp"
 	"fmt"
 	"go/token"
 	"go/types"
+	"regexp"
 	"sort"
 	"strings"
 
